@@ -1,4 +1,5 @@
 import GdcVerif.Model.J2kSample
+import GdcVerif.Lemmas.GoBits
 /-! Lemmas for C04: sample (de)serialisation, header codes, bit writer. -/
 namespace J2k
 
@@ -33,7 +34,7 @@ theorem two_pow_le (a b : Nat) (h : a ≤ b) : (2:Int)^a ≤ 2^b := by
 theorem shl_one_int (P : Int) (h : 0 ≤ P) : Go.shl 1 P = 2 ^ P.toNat := by unfold Go.shl; simp
 
 theorem sample_roundtrip' (P : Int) (signed : Bool) (s : Int) (hP1 : 1 ≤ P) (hP2 : P ≤ 16)
-    (hr : inRange P signed s) (hb : ¬ (signed = true ∧ P < 8 ∧ s < 0)) :
+    (hr : inRange P signed s) :
     sampleRoundTrip P signed s = container P s := by
   -- M = 2^P, Hf = 2^(P-1)
   have hk1 : 1 ≤ P.toNat := by omega
@@ -48,7 +49,6 @@ theorem sample_roundtrip' (P : Int) (signed : Bool) (s : Int) (hP1 : 1 ≤ P) (h
     intro h
     have : (2 : Int) ^ P.toNat ≤ 2 ^ 8 := two_pow_le _ _ (by omega)
     simpa using this
-  have hM8' : P = 8 → (2 : Int) ^ P.toNat = 256 := by intro h; subst h; decide
   have hM9 : ¬ P ≤ 8 → (512 : Int) ≤ 2 ^ P.toNat := by
     intro h
     have : (2 : Int) ^ 9 ≤ 2 ^ P.toNat := two_pow_le _ _ (by omega)
@@ -56,6 +56,8 @@ theorem sample_roundtrip' (P : Int) (signed : Bool) (s : Int) (hP1 : 1 ≤ P) (h
   have hsh1 : Go.shl 1 (P - 1) = 2 ^ (P.toNat - 1) := by
     rw [shl_one_int _ (by omega)]; congr 1; omega
   have hsh : Go.shl 1 P = 2 ^ P.toNat := shl_one_int _ (by omega)
+  have hmask : ∀ u : Int, Go.and u (2 ^ P.toNat - 1) = u % 2 ^ P.toNat :=
+    fun u => Go.and_mask u P.toNat (by omega)
   unfold inRange at hr
   -- u = s mod 2^P
   have hu_nonneg : 0 ≤ s → s < 2 ^ P.toNat → s % 2 ^ P.toNat = s := fun a b => Int.emod_eq_of_lt a b
@@ -63,8 +65,9 @@ theorem sample_roundtrip' (P : Int) (signed : Bool) (s : Int) (hP1 : 1 ≤ P) (h
     intro a b
     have : s % 2 ^ P.toNat = (s + 2 ^ P.toNat) % 2 ^ P.toNat := by simp
     rw [this]; exact Int.emod_eq_of_lt (by omega) (by omega)
+  have hidem : ∀ u : Int, 0 ≤ u → u < 2 ^ P.toNat → u % 2 ^ P.toNat = u := fun u a b => Int.emod_eq_of_lt a b
   unfold sampleRoundTrip container writeSample dcUnshift dcShift readSample Go.uwrap8
-  simp only [shr8, hsh1, hsh]
+  simp only [shr8, hsh1, hsh, hmask]
   generalize hMd : (2 : Int) ^ P.toNat = M at *
   generalize hHd : (2 : Int) ^ (P.toNat - 1) = Hf at *
   cases signed <;> simp only [↓reduceIte, Bool.true_and, Bool.false_and, Bool.false_eq_true] at hr ⊢
@@ -73,13 +76,13 @@ theorem sample_roundtrip' (P : Int) (signed : Bool) (s : Int) (hP1 : 1 ≤ P) (h
     rw [hu]
     by_cases h8 : P ≤ 8
     · have := hM8 h8
-      simp only [h8, if_true, Bool.false_and, Bool.false_eq_true, if_false]
+      simp only [h8, if_true]
       have c1 : ¬ (s - Hf + Hf < 0) := by omega
       have c2 : ¬ (s - Hf + Hf > M - 1) := by omega
       simp only [c1, c2, if_false]
       congr 1; omega
     · have := hM9 h8
-      simp only [h8, if_false, Bool.false_and, Bool.false_eq_true]
+      simp only [h8, if_false]
       rw [Go_or_lohi s (by omega) (by omega)]
       have c1 : ¬ (s - Hf + Hf < 0) := by omega
       have c2 : ¬ (s - Hf + Hf > M - 1) := by omega
@@ -91,51 +94,38 @@ theorem sample_roundtrip' (P : Int) (signed : Bool) (s : Int) (hP1 : 1 ≤ P) (h
     by_cases hs : 0 ≤ s
     · have hu := hu_nonneg hs (by omega)
       rw [hu]
+      have c1 : ¬ (s < -Hf) := by omega
+      have c2 : ¬ (s > Hf - 1) := by omega
+      have c3 : ¬ (s < 0) := by omega
+      have c0 : ¬ (s ≥ Hf) := by omega
       by_cases h8 : P ≤ 8
       · have := hM8 h8
-        have c0 : ¬ (s ≥ 128) := by omega
-        simp only [h8, if_true, Bool.true_and, c0, decide_false, Bool.false_eq_true, if_false]
-        have c1 : ¬ (s < -Hf) := by omega
-        have c2 : ¬ (s > Hf - 1) := by omega
-        have c3 : ¬ (s < 0) := by omega
-        simp only [c1, c2, c3, if_false]
+        simp only [h8, if_true]
+        rw [hidem s hs (by omega)]
+        simp only [c0, c1, c2, c3, if_false]
         congr 1; omega
       · have := hM9 h8
-        simp only [h8, if_false, Bool.true_and]
+        simp only [h8, if_false]
         rw [Go_or_lohi s (by omega) (by omega)]
-        have c0 : ¬ (s ≥ Hf) := by omega
-        have c1 : ¬ (s < -Hf) := by omega
-        have c2 : ¬ (s > Hf - 1) := by omega
-        have c3 : ¬ (s < 0) := by omega
         simp only [c0, decide_false, Bool.false_eq_true, if_false, c1, c2, c3]
         congr 1; omega
     · have hneg : s < 0 := by omega
       have hu := hu_neg hneg (by omega)
       rw [hu]
+      have c0 : s + M ≥ Hf := by omega
+      have e : s + M - M = s := by omega
+      have c1 : ¬ (s < -Hf) := by omega
+      have c2 : ¬ (s > Hf - 1) := by omega
       by_cases h8 : P ≤ 8
-      · have hP8 : P = 8 := by
-          by_cases h : P < 8
-          · exact absurd ⟨rfl, h, hneg⟩ hb
-          · omega
-        have := hM8' hP8
-        have c0 : s + M ≥ 128 := by omega
-        simp only [h8, if_true, Bool.true_and, c0, decide_true]
-        have e : s + M - 256 = s := by omega
-        rw [e]
-        have c1 : ¬ (s < -Hf) := by omega
-        have c2 : ¬ (s > Hf - 1) := by omega
-        simp only [c1, c2, if_false, hneg, if_true]
+      · have := hM8 h8
+        simp only [h8, if_true]
+        rw [hidem (s + M) (by omega) (by omega)]
+        simp only [c0, if_true, e, c1, c2, if_false, hneg]
         congr 1; omega
       · have := hM9 h8
-        simp only [h8, if_false, Bool.true_and]
+        simp only [h8, if_false]
         rw [Go_or_lohi (s + M) (by omega) (by omega)]
-        have c0 : s + M ≥ Hf := by omega
-        simp only [c0, decide_true, if_true]
-        have e : s + M - M = s := by omega
-        rw [e]
-        have c1 : ¬ (s < -Hf) := by omega
-        have c2 : ¬ (s > Hf - 1) := by omega
-        simp only [c1, c2, if_false, hneg, if_true]
+        simp only [c0, decide_true, if_true, e, c1, c2, if_false, hneg]
         congr 1; omega
 
 end J2k
